@@ -46,6 +46,7 @@ pub fn dispatch(c: &Case<'_>) -> Out {
         "rpath" => rpath(c),
         "frange" => frange(c),
         "infom" => conninfo(c, true),
+        "cdm" => content_disposition_m(c),
         // ---- pure fuzz entries
         "info" => conninfo(c, false),
         "app" => app(c),
@@ -343,6 +344,40 @@ fn conninfo(c: &Case<'_>, modelled: bool) -> Out {
         .nt(nt)
     } else {
         Out::nopanic().tag("info:ok").nt(nt)
+    }
+}
+
+// ------------------------------------------------------------------------------------------
+// modelled: ContentDisposition::from_raw (inputs without `*`: extended parameters go through the
+// unmodelled `parse_extended_value`)
+
+fn content_disposition_m(c: &Case<'_>) -> Out {
+    if c.bytes.contains(&b'*') {
+        return Out::new("unmodelled").tag("cdm:ext");
+    }
+    let Some(v) = hv(&c.bytes) else { return Out::new("badhv").tag("cdm:badhv") };
+    match header::ContentDisposition::from_raw(&v) {
+        Err(_) => Out::new("err").tag("cdm:err"),
+        Ok(cd) => {
+            let t = match &cd.disposition {
+                header::DispositionType::Inline => "inline".to_owned(),
+                header::DispositionType::Attachment => "attachment".to_owned(),
+                header::DispositionType::FormData => "form-data".to_owned(),
+                header::DispositionType::Ext(s) => format!("ext:{}", hex(s.as_bytes())),
+            };
+            let ps: Vec<String> = cd
+                .parameters
+                .iter()
+                .map(|p| match p {
+                    header::DispositionParam::Name(v) => format!("N:{}", hex(v.as_bytes())),
+                    header::DispositionParam::Filename(v) => format!("F:{}", hex(v.as_bytes())),
+                    header::DispositionParam::Unknown(n, v) => format!("U:{}:{}", hex(n.as_bytes()), hex(v.as_bytes())),
+                    _ => "E".to_owned(),
+                })
+                .collect();
+            let ps = if ps.is_empty() { "-".to_owned() } else { ps.join(",") };
+            Out::new(format!("ok t={t} p={ps}")).tag("cdm:ok").nt(true)
+        }
     }
 }
 
